@@ -15,6 +15,7 @@
      decode_fast                          the same function computed in linear time (decf_eq)
      um_number um_bool um_string um_null um_undef um_object um_ecma um_strict
                               the typed UnmarshalBinary methods (marker checked by the method itself)
+     um_into old fuel p       the typed UnmarshalBinary on a receiver that already holds old
      set_prop                 objectBase.Set (replace-if-present, else append)
      gval, g_view, g_marshal, hop, h_step, h_run   histories of API calls on one object graph
                               with the separately stored `count` fields (C05 histories)
@@ -26,8 +27,9 @@
        E_INVALID 3 ("Marker m is invalid"), E_ILLEGAL 4 ("... marker m is illegal"), E_FUEL 9.
      Panic sites: 1 = p[a.Size():] in pushOne out of range (never happens: amf0_dec_total).
 
-   The model follows the tree AFTER the two fix commits of this round (container decoder appends
-   every decoded pair; StrictArray marshals len(properties) as count).  Go [int] is taken to be 64
+   The model follows the tree AFTER the three fix commits of this round (container decoder appends
+   every decoded pair; StrictArray marshals len(properties) as count; container UnmarshalBinary
+   resets the receiver's properties).  Go [int] is taken to be 64
    bits (int(v.count) <= 0 only for count = 0). *)
 From Verif Require Import Lib.Base Lib.Sx.
 From Verif Require Import Gen.Gen_amf0.
@@ -408,6 +410,84 @@ Definition um_strict (fuel : nat) (p : bytes) : res (amf * N) :=
            if count =? 0 then Ok (AStrict [], 1 + 4)
            else let* (ps, sz) := dec_props fuel false count r' [] 0 0 in Ok (AStrict ps, 1 + 4 + sz)
   | _ => Err E_SHORT
+  end.
+
+(* ---- UnmarshalBinary into a receiver that ALREADY HOLDS a value ----
+   [um_into old fuel p]: the method of old's type, called on a receiver whose current value is
+   old (a scratch value reused between messages, a value fetched with Get, a defaulted field).
+   Scalars: Number and Boolean assign *v on the success path only; String decodes into a LOCAL
+   amf0UTF8 and assigns *v = String(sv) after it succeeded; null/undefined have no state.
+   Containers (after fix 8324535): v.reset() drops the old properties once the header is accepted,
+   then objectBase.unmarshal runs as on a fresh value; count is overwritten from the wire.
+   [um_cont_from kind ps0 ...] is the same method starting from the property list ps0:
+   ps0 = [] is the code; ps0 = old properties was the behaviour before the fix (appending,
+   the strict loop counting the old elements), kept for the refuted witness. *)
+Definition akind (v : amf) : N :=
+  match v with
+  | ANum _ => mNumber | ABool _ => mBoolean | AStr _ => mString | AObj _ => mObject
+  | ANull => mNull | AUndef => mUndefined | AEcma _ _ => mEcmaArray | AStrict _ => mStrictArray
+  end.
+
+Definition um_cont_from (kind : N) (ps0 : props) (fuel : nat) (p : bytes) : res (amf * N) :=
+  if kind =? mObject then
+    match p with
+    | [] => Err E_SHORT
+    | m :: r =>
+        if negb (m =? mObject) then Err E_ILLEGAL
+        else let* (ps, sz) := dec_props fuel true 0 r (rev ps0) (plen ps0) (size_props ps0) in
+             Ok (AObj ps, 1 + 3 + sz)
+    end
+  else if kind =? mEcmaArray then
+    match p with
+    | m :: a :: b :: c :: d :: r' =>
+        if negb (m =? mEcmaArray) then Err E_ILLEGAL
+        else let* (ps, sz) := dec_props fuel true 0 r' (rev ps0) (plen ps0) (size_props ps0) in
+             Ok (AEcma (ube4 a b c d) ps, 1 + 4 + 3 + sz)
+    | _ => Err E_SHORT
+    end
+  else
+    match p with
+    | m :: a :: b :: c :: d :: r' =>
+        if negb (m =? mStrictArray) then Err E_ILLEGAL
+        else let count := ube4 a b c d in
+             if count =? 0 then Ok (AStrict ps0, 1 + 4 + size_props ps0)
+             else let* (ps, sz) := dec_props fuel false count r' (rev ps0) (plen ps0) (size_props ps0) in
+                  Ok (AStrict ps, 1 + 4 + sz)
+    | _ => Err E_SHORT
+    end.
+
+Definition um_into (old : amf) (fuel : nat) (p : bytes) : res (amf * N) :=
+  match old with
+  | ANum _ => um_number p                 (* *v = Number(...) after both checks *)
+  | ABool _ => um_bool p                  (* *v assigned in both branches *)
+  | AStr _ => um_string p                 (* var sv amf0UTF8; ...; *v = String(sv) *)
+  | ANull => um_null p
+  | AUndef => um_undef p
+  | AObj _ => um_cont_from mObject [] fuel p          (* v.reset() *)
+  | AEcma _ _ => um_cont_from mEcmaArray [] fuel p
+  | AStrict _ => um_cont_from mStrictArray [] fuel p
+  end.
+
+(* k decodes into ONE receiver from a stream, advancing by Size(): the values with their sizes
+   and the final status (0 = the input ended exactly after a value, else the error class;
+   98 = panic, 99 = p[Size():] out of range) *)
+Fixpoint um_stream (n : nat) (old : amf) (p : bytes) : list (amf * N) * N :=
+  match n with
+  | O => ([], E_FUEL)
+  | S n' =>
+    match p with
+    | [] => ([], 0)
+    | _ :: _ =>
+        match um_into old (dec_fuel p) p with
+        | Ok (v, sz) =>
+            match takeN sz p with
+            | Some (_, rest) => let '(l, st) := um_stream n' v rest in ((v, sz) :: l, st)
+            | None => ([], 99)
+            end
+        | Err e => ([], e)
+        | Panic _ => ([], 98)
+        end
+    end
   end.
 
 (* ---- well-formedness (decidable) ---- *)
@@ -866,6 +946,10 @@ Fixpoint hops_of_sx (l : list sx) : option (list hop) :=
    (0 tree)  build the tree through the API (Set), marshal, Size, unmarshal the bytes, re-marshal
              -> (0 xbytes size <decode observation>)
    (1 xbytes) Discovery + UnmarshalBinary -> (0 tree size xreenc) | (1 code) | (2)
+   (3 mode oldtree xbytes)  UnmarshalBinary(bytes) into a receiver that already holds oldtree
+              (mode 0: built through the API, 1: decoded from its encoding) -> (0 tree size) | (1 code)
+   (4 oldtree xstream)      repeated UnmarshalBinary into ONE receiver advancing by Size()
+              -> (((tree size)...) status)
    (2 ops)    a history of API calls on one object graph, starting from NewObject():
               (0 kind) new root -> (0);  (1 path key tree) Set -> (0) | (1);
               (2 path) MarshalBinary -> (0 xbytes size);  (3 kind xbytes) typed Unmarshal into a
@@ -880,6 +964,18 @@ Definition run_c05 (c : sx) : sx :=
       | None => bad_case
       end
   | SL [SZ 1%Z; SB b] => obs_res (decode_fast b) true
+  | SL [SZ 3%Z; SZ _; t; SB b] =>
+      match amf_of_sx true t with
+      | Some old => obs_res (um_into old (dec_fuel b) b) false
+      | None => bad_case
+      end
+  | SL [SZ 4%Z; t; SB b] =>
+      match amf_of_sx true t with
+      | Some old =>
+          let '(l, st) := um_stream (S (length b)) old b in
+          SL [SL (map (fun vn => SL [sx_of_amf (fst vn); sN (snd vn)]) l); sN st]
+      | None => bad_case
+      end
   | SL [SZ 2%Z; SL ops] =>
       match hops_of_sx ops with
       | Some hs => SL (h_obs g0 hs)
